@@ -587,6 +587,7 @@ package url
 // ---------------------------------------------------------------------------------------------------------------
 
 //@ func (*parser).BasicParser
+//@   noreads url.parserOptions.reportValidationErrors, url.parserOptions.failOnValidationError, url.Url.validationErrors except (*parser).handleError, (*parser).handleErrorWithDescription, (*parser).handleWrappedError   [C15 diagnostics-options-read-only-by-the-error-handlers]
 //@   requires okOpts(p)
 //@   requires baseUrl != nil ==> (wf(baseUrl) && baseUrl.parser == p)
 //@   requires url == nil ==> stateOverride == NoState
@@ -916,6 +917,7 @@ package url
 // ---------------------------------------------------------------------------------------------------------------
 
 //@ func (*Url).SetProtocol
+//@   noreads url.parserOptions.reportValidationErrors, url.parserOptions.failOnValidationError, url.Url.validationErrors except (*parser).handleError, (*parser).handleErrorWithDescription, (*parser).handleWrappedError   [C15 diagnostics-options-read-only-by-the-error-handlers]
 //@   requires wf(u)
 //@   modifies u.*, u.path.*, u.path.p[..], u.validationErrors[..]
 //@   ensures wf(u)   [C02,C04,C19]
@@ -926,6 +928,7 @@ package url
 //@   ensures u.scheme != old(u.scheme) ==> (u.inputUrl == old(cleaned(specHasSuffix(scheme, ":") ? scheme : scheme + ":")) && hasSch(u)
 //@           && u.scheme == specLowerRunes(inC(u), schEnd(u)))   [C05 protocol-value]
 //@ func (*Url).SetUsername
+//@   noreads url.parserOptions.reportValidationErrors, url.parserOptions.failOnValidationError, url.Url.validationErrors except (*parser).handleError, (*parser).handleErrorWithDescription, (*parser).handleWrappedError   [C15 diagnostics-options-read-only-by-the-error-handlers]
 //@   requires wf(u)
 //@   modifies u.username
 //@   ensures wf(u)   [C02,C04,C19]
@@ -935,6 +938,7 @@ package url
 //@   ensures (!(u.host == nil || *u.host == "" || u.scheme == "file") && u.parser.opts.encodingOverride == nil) ==> u.username == specEncStr(runesOf(username),
 //@           runeCount(username), runeCount(username), bsBits(UserInfoPercentEncodeSet.bs), UserInfoPercentEncodeSet.allBelow, false, u.parser.opts.percentEncodeSinglePercentSign)   [C05 username-value]
 //@ func (*Url).SetPassword
+//@   noreads url.parserOptions.reportValidationErrors, url.parserOptions.failOnValidationError, url.Url.validationErrors except (*parser).handleError, (*parser).handleErrorWithDescription, (*parser).handleWrappedError   [C15 diagnostics-options-read-only-by-the-error-handlers]
 //@   requires wf(u)
 //@   modifies u.password
 //@   ensures wf(u)   [C02,C04,C19]
@@ -944,6 +948,7 @@ package url
 //@   ensures (!(u.host == nil || *u.host == "" || u.scheme == "file") && u.parser.opts.encodingOverride == nil) ==> u.password == specEncStr(runesOf(password),
 //@           runeCount(password), runeCount(password), bsBits(UserInfoPercentEncodeSet.bs), UserInfoPercentEncodeSet.allBelow, false, u.parser.opts.percentEncodeSinglePercentSign)   [C05 password-value]
 //@ func (*Url).SetHost
+//@   noreads url.parserOptions.reportValidationErrors, url.parserOptions.failOnValidationError, url.Url.validationErrors except (*parser).handleError, (*parser).handleErrorWithDescription, (*parser).handleWrappedError   [C15 diagnostics-options-read-only-by-the-error-handlers]
 //@   requires wf(u)
 //@   modifies u.*, u.path.*, u.path.p[..], u.validationErrors[..]
 //@   ensures wf(u)   [C02,C04,C19]
@@ -952,6 +957,7 @@ package url
 //@   ensures u.searchParams == old(u.searchParams)   [C12 other-setters-keep-the-list]
 //@   ensures old(u.path.opaque) ==> sameUrl(u)   [C05]
 //@ func (*Url).SetHostname
+//@   noreads url.parserOptions.reportValidationErrors, url.parserOptions.failOnValidationError, url.Url.validationErrors except (*parser).handleError, (*parser).handleErrorWithDescription, (*parser).handleWrappedError   [C15 diagnostics-options-read-only-by-the-error-handlers]
 //@   requires wf(u)
 //@   modifies u.*, u.path.*, u.path.p[..], u.validationErrors[..]
 //@   ensures wf(u)   [C02,C04,C19]
@@ -960,6 +966,7 @@ package url
 //@   ensures u.searchParams == old(u.searchParams)   [C12 other-setters-keep-the-list]
 //@   ensures old(u.path.opaque) ==> sameUrl(u)   [C05]
 //@ func (*Url).SetPort
+//@   noreads url.parserOptions.reportValidationErrors, url.parserOptions.failOnValidationError, url.Url.validationErrors except (*parser).handleError, (*parser).handleErrorWithDescription, (*parser).handleWrappedError   [C15 diagnostics-options-read-only-by-the-error-handlers]
 //@   requires wf(u)
 //@   modifies u.*, u.path.*, u.path.p[..], u.validationErrors[..]
 //@   ensures wf(u)   [C02,C04,C19]
@@ -970,6 +977,7 @@ package url
 //@   ensures (!(old(u.host) == nil || old(*u.host) == "" || old(u.scheme) == "file") && port == "") ==> (u.port == nil && u.decodedPort == 0)   [C05]
 //@   ensures sameButPort(u)   [C05]
 //@ func (*Url).SetPathname
+//@   noreads url.parserOptions.reportValidationErrors, url.parserOptions.failOnValidationError, url.Url.validationErrors except (*parser).handleError, (*parser).handleErrorWithDescription, (*parser).handleWrappedError   [C15 diagnostics-options-read-only-by-the-error-handlers]
 //@   requires wf(u)
 //@   modifies u.*, u.path.*, u.path.p[..], u.validationErrors[..]
 //@   ensures wf(u)   [C02,C04,C19]
@@ -978,6 +986,7 @@ package url
 //@   ensures u.searchParams == old(u.searchParams)   [C12 other-setters-keep-the-list]
 //@   ensures old(u.path.opaque) ==> sameUrl(u)   [C05]
 //@ func (*Url).SetHash
+//@   noreads url.parserOptions.reportValidationErrors, url.parserOptions.failOnValidationError, url.Url.validationErrors except (*parser).handleError, (*parser).handleErrorWithDescription, (*parser).handleWrappedError   [C15 diagnostics-options-read-only-by-the-error-handlers]
 //@   requires wf(u)
 //@   modifies u.*, u.path.*, u.path.p[..], u.validationErrors[..]
 //@   ensures wf(u)   [C02,C04,C19]
@@ -991,6 +1000,7 @@ package url
 //@   ensures sameButFragmentPath(u)   [C05]
 //@   ensures (fragment == "" && u.query == nil && u.path.opaque) ==> u.path.p[0] == old(u.path.p[0])[0:specTrimRHi(old(u.path.p[0]), " ")]   [C05,C03 strip-only-when-both-null]
 //@ func (*Url).SetSearch
+//@   noreads url.parserOptions.reportValidationErrors, url.parserOptions.failOnValidationError, url.Url.validationErrors except (*parser).handleError, (*parser).handleErrorWithDescription, (*parser).handleWrappedError   [C15 diagnostics-options-read-only-by-the-error-handlers]
 //@   requires wf(u)
 //@   modifies u.*, u.path.*, u.path.p[..], u.validationErrors[..], u.searchParams.params, u.searchParams.params[..]
 //@   ensures wf(u)   [C02,C04,C19]
@@ -1025,6 +1035,7 @@ package url
 //@   modifies u.searchParams, u.query
 //@   ensures wf(u)
 //@ func (*Url).Parse
+//@   noreads url.parserOptions.reportValidationErrors, url.parserOptions.failOnValidationError, url.Url.validationErrors except (*parser).handleError, (*parser).handleErrorWithDescription, (*parser).handleWrappedError   [C15 diagnostics-options-read-only-by-the-error-handlers]
 //@   requires wf(u)
 //@   ensures result1 == nil ==> (result0 != nil && fresh(result0) && wf(result0) && allFresh(result0))   [C02,C13,C14]
 //@   ensures (result1 == nil && shapeP(u)) ==> shapeP(result0)   [C04 parse-establishes-shape]
@@ -1043,6 +1054,7 @@ package url
 //@   ensures (u.path.opaque && result1 == nil) ==> (hasSch(result0) || startsHash(result0))   [C06 opaque-base-accepts-only-fragment]
 
 //@ func (*parser).Parse
+//@   noreads url.parserOptions.reportValidationErrors, url.parserOptions.failOnValidationError, url.Url.validationErrors except (*parser).handleError, (*parser).handleErrorWithDescription, (*parser).handleWrappedError   [C15 diagnostics-options-read-only-by-the-error-handlers]
 //@   requires okOpts(p)
 //@   ensures result1 == nil ==> (result0 != nil && fresh(result0) && wf(result0) && allFresh(result0) && result0.parser == p)   [C02,C13,C14]
 //@   ensures result1 == nil ==> shapeP(result0)   [C04 parse-establishes-shape]
@@ -1057,6 +1069,7 @@ package url
 //@           && result0.username == "" && result0.password == "" && result0.port == nil)   [C01 opaque-path-shape]
 //@   ensures (result1 == nil && opaqueCase(result0) && p.opts.encodingOverride == nil) ==> result0.path.p[0] == opaqueSeg(result0, firstQH(result0))   [C01 opaque-path-value]
 //@ func (*parser).ParseRef
+//@   noreads url.parserOptions.reportValidationErrors, url.parserOptions.failOnValidationError, url.Url.validationErrors except (*parser).handleError, (*parser).handleErrorWithDescription, (*parser).handleWrappedError   [C15 diagnostics-options-read-only-by-the-error-handlers]
 //@   requires okOpts(p)
 //@   ensures result1 == nil ==> (result0 != nil && fresh(result0) && wf(result0) && allFresh(result0))   [C02,C13,C14]
 //@   ensures result1 == nil ==> shapeP(result0)   [C04 parse-establishes-shape]
